@@ -80,11 +80,13 @@ def run(ctx):
         spec = tmodel.gen_spec(rng, nlayers=n, nwn=1, contribs=['Absorption'])
         spec['planet_mass'] = 10 ** rng.uniform(-1.5, 1.0)
         spec['planet_radius'] = 10 ** rng.uniform(-0.8, 0.3)
+        if len(spec['T']) > 1 and rng.random() < 0.35:
+            spec['T'] = [int(t) for t in spec['T']]
         rp = dict(spec=spec)
         try:
             model = tmodel.build(spec)
             with np.errstate(all='ignore'):
-                model.model()
+                model.initialize_profiles()
                 prof = model.generate_profiles()
         except Exception as e:
             ctx.violation('impl-raises:' + C.err_kind(e), 'model raised %r' % (e,), replay=rp)
@@ -96,6 +98,11 @@ def run(ctx):
                  g=np.array(model.gravity_profile, float), H=np.array(model.scaleheight_profile, float),
                  mu=np.array(model.chemistry.muProfile, float), profiles=prof,
                  GM=float(K.G) * float(model.planet.fullMass), R=float(model.planet.fullRadius), k=float(K.KBOLTZ))
+        if not np.all(np.isfinite(o['zb'])) or o['zb'][-1] > 50 * o['R']:
+            # runaway atmosphere (scale height comparable to the radius): altitudes overflow binary64; outside
+            # what floating point can represent, skipped and counted
+            ctx.count('skipped:runaway-atmosphere')
+            continue
         oracle(ctx, o, rp)
         e1.append('run_levels %s %s %s' % (C.iv(math.log10(spec['pmin'])), C.iv(math.log10(spec['pmax'])), C.natlit(n)))
         m1.append((o, rp))
@@ -110,11 +117,16 @@ def run(ctx):
         n = rng.choice([1, 2, 3, 5, 8, 13])
         lv = 10 ** (rng.uniform(3, 7) - np.concatenate([[0], np.cumsum([rng.uniform(0.01, 2) for _ in range(n)])]))
         T = np.array([rng.uniform(50, 4000) for _ in range(n)])
+        if rng.random() < 0.35:      # whole-number temperatures given as an integer array
+            T = np.array([rng.randrange(50, 4000) for _ in range(n)])
         mu = np.array([rng.uniform(1, 50) for _ in range(n)]) * float(K.AMU)
         pl = Planet(planet_mass=10 ** rng.uniform(-2, 1.3), planet_radius=10 ** rng.uniform(-1, 0.5))
         with np.errstate(all='ignore'):
             z, H, g, dz = pl.calculate_scale_properties(T, lv, mu)
         o = dict(zb=np.array(z), H=np.array(H), g=np.array(g), dz=np.array(dz))
+        if not np.all(np.isfinite(o['zb'])) or o['zb'][-1] > 50 * pl.fullRadius:
+            ctx.count('skipped:runaway-atmosphere')
+            continue
         rp = dict(levels=lv, T=T, mu=mu, mass=pl.fullMass, radius=pl.fullRadius)
         if len(z) != n + 1 or len(H) != n or len(g) != n or len(dz) != n or z[0] != 0 or np.any(np.diff(z) <= 0):
             ctx.violation('structure:direct', 'calculate_scale_properties: wrong lengths or altitude not increasing '
